@@ -86,7 +86,7 @@ UNNAMED_TYPE_PARTS = [("list", None, T.leaf("Value", "is_instance", tuple), None
 
 
 def units(tier):
-    return gen.chunks(len(_paths(tier)), 6) + [["NOISE"]] + [["CALL", lo, hi] for lo, hi in gen.chunks(len(gen.callable_parts()), 12)]
+    return gen.chunks(len(_paths(tier)), 6) + [["NOISE"], ["CONF", 0], ["CONF", 1]] + [["CALL", lo, hi] for lo, hi in gen.chunks(len(gen.callable_parts()), 12)]
 
 
 def run_unit(unit, tier):
@@ -103,6 +103,20 @@ def run_unit(unit, tier):
         for pi, p in enumerate(ps):
             for how in ("api", "spec"):
                 check_case(res, p, how, docs, key=("NOISE", pi, how), noise=True)
+        return res
+    if unit[0] == "CONF":
+        # paths that differ only in the type of an equal-valued primitive part (1 / 1.0 / True / '1', 0 / 0.0 / False), all
+        # serialised and rebuilt in ONE process, in both orders
+        from mc.props.c10 import PRIM_PATHS
+        pool = [T.path(tuple(("prim", x) for x in pp)) for pp in PRIM_PATHS]
+        pool += [T.path((("map", ("lit", x), None, None),)) for x in (1, 1.0, True, "1")]
+        pool += [T.path((("prim", "a"), ("list", ("lit", x), None, None))) for x in (1, True, 0, False)]
+        if unit[1]:
+            pool = pool[::-1]
+        docs = family("quick")
+        for pi, pt in enumerate(pool):
+            for how in ("api", "spec"):
+                check_case(res, pt, how, docs, key=("CONF", unit[1], pi, how))
         return res
     if unit[0] == "CALL":
         # every comparison callable in every condition position of a part
